@@ -1,5 +1,11 @@
 (* C11 -- the generator never panics, aborts or hangs, whatever the input files contain.
-   PARTIAL by nature.  What is proved: (1) every function of the model is a structurally recursive Coq function -- the parser, the
+   Proved on the model (second session): C11_run_never_panics -- for arbitrary file contents and ordinary paths (no NUL, a file
+   name) the whole run -- load, name table, every converter -- never reaches a Panic outcome; C11_convert_never_panics (every
+   converter on every validated unit), C11_load_never_panics, C11_stored_values_readable (whatever add()/set() store for a value
+   without NUL can be read again, so the generator never panics on its own entries).  The model has an explicit Panic outcome at every
+   unwrap/expect/index site whose precondition depends on the input (tools/panic_sites.json); that the model's Panic outcomes coincide
+   with the implementation's panics is the correspondence obligation of tools/props/C11.py.
+   PARTIAL by nature beyond the model.  Also proved: (1) every function of the model is a structurally recursive Coq function -- the parser, the
    splitters and the unquoter are one-character-per-step machines -- so the modelled logic terminates on every input by construction
    (no fuel anywhere in the parser); (2) every unit the parser returns, and every merge of such units, contains only values that
    passed the load-time validation; (3) on such units no look-up reaches the unquote().expect() panic.  Every other panic-capable site of
@@ -7,7 +13,7 @@
    finding class it belongs to; a new site breaks that inventory.  Panics inside csv/walkdir/std/the logger, stack exhaustion and
    allocation failure are not expressible in the model: the fuzzing half (in-process under catch_unwind and the real binary) covers them
    only by sampling. *)
-From QV Require Import Model.Base Model.Unquote Model.Unit Model.Parser Model.Names Model.Convert Proofs.C11.
+From QV Require Import Model.Base Model.Quote Model.Unquote Model.Unit Model.Parser Model.Path Model.Names Model.Convert Model.Process Proofs.C11 Proofs.C11run.
 
 Theorem C11_parsed_units_validated : forall text u, parse_unit text = Some u -> Validated u.
 Proof. exact parsed_units_validated. Qed.
@@ -36,3 +42,23 @@ Theorem C11_pinned_refuted :
   | _ => False
   end.
 Proof. exact (conj nul_value_panics working_dir_of_root). Qed.
+
+(* ---- no Panic outcome anywhere in the run ---- *)
+(* Ordinary p: no NUL in p, p has a file name, and that name is its own file name (no separator) *)
+Theorem C11_run_never_panics : forall podman exists_path kill_fixed mount_nl files,
+  (forall p t, In (p, t) files -> ~ In 0%N p /\ exists f, file_name p = Some f /\ file_name f = Some f) ->
+  let '(loads, results) := process_files podman exists_path kill_fixed mount_nl files in
+  (forall p, ~ In (p, LPanic) loads) /\ (forall p, ~ In (p, RPanic) results).
+Proof. exact run_no_panic. Qed.
+
+Theorem C11_convert_never_panics : forall podman exists_path kill_fixed mount_nl u, Validated u -> forall path, ~ In 0%N path ->
+  forall t tbl f st, file_name path = Some f -> file_stem path = Some st ->
+  convert_one podman exists_path kill_fixed mount_nl u path t tbl <> CPanic.
+Proof. exact convert_no_panic. Qed.
+
+Theorem C11_load_never_panics : forall path text,
+  (~ In 0%N path /\ exists f, file_name path = Some f /\ file_name f = Some f) -> load_one path text <> LPanic.
+Proof. exact load_one_no_panic. Qed.
+
+Theorem C11_stored_values_readable : forall v, ~ In 0%N v -> unquote_value (quote_value v) <> None.
+Proof. exact quote_value_reads_back. Qed.
